@@ -26,6 +26,9 @@ func allInstances() []*Instance {
 	regC14(add, p)
 	regC04(add, p)
 	regC17(add, p)
+	regC05(add, p)
+	regC06(add, p)
+	regC07(add, p)
 	return all
 }
 
@@ -125,4 +128,81 @@ func regC17(add addFn, p pFn) {
 	for _, c := range []int{0, 12, 16, 24} {
 		add(&Instance{Property: "C17", Name: "mic-marshal-c" + itoa(c), Entry: "gssapi.VH_C17_MICMarshal", Params: p("cksum", c), Reach: []string{"done"}, Bound: "checksum of the given length, symbolic flags and sequence number"})
 	}
+}
+
+var allEtypes = []int{16, 17, 18, 19, 20, 23}
+
+func regC05(add addFn, p pFn) {
+	for _, et := range allEtypes {
+		for _, n := range []int{0, 1, 7, 8, 9, 15, 16, 17, 31, 32, 33} {
+			add(&Instance{Property: "C05", Name: "encrypt-e" + itoa(et) + "-n" + itoa(n), Entry: "crypto.VH_C05_Encrypt", Params: p("etype", et, "n", n), Stubs: []string{"nfolduf", "des3rtkuf"}, Logic: "QF_UFBV",
+				Reach: []string{"encrypted", "decrypted"}, Bound: "plaintext of exactly n bytes; key, confounder, plaintext and all 2^32-1 non-zero key usages symbolic"})
+		}
+		for _, n := range []int{47, 48, 49, 64, 65, 100, 130} {
+			add(&Instance{Property: "C05", Name: "encrypt-e" + itoa(et) + "-n" + itoa(n), Entry: "crypto.VH_C05_Encrypt", Params: p("etype", et, "n", n), Stubs: []string{"nfolduf", "des3rtkuf"}, Logic: "QF_UFBV", Tier: "thorough",
+				Reach: []string{"encrypted", "decrypted"}, Bound: "plaintext of exactly n bytes; everything else symbolic"})
+		}
+		add(&Instance{Property: "C05", Name: "api-e" + itoa(et), Entry: "crypto.VH_C05_PublicAPI", Params: p("etype", et, "n", 17), Stubs: []string{"nfolduf", "des3rtkuf"}, Logic: "QF_UFBV", Reach: []string{"done"},
+			Bound: "GetEncryptedData/DecryptMessage wrappers, 17-byte plaintext"})
+	}
+}
+
+func regC06(add addFn, p pFn) {
+	for _, et := range allEtypes {
+		pr := map[int][3]int{16: {8, 20, 8}, 17: {16, 12, 1}, 18: {16, 12, 1}, 19: {16, 16, 1}, 20: {16, 24, 1}, 23: {8, 16, 1}}[et] // confounder, tag, pad
+		cl := func(n int) int {
+			l := pr[0] + n
+			if pr[2] == 8 {
+				l = (l + 7) / 8 * 8
+			}
+			return l + pr[1]
+		}
+		for _, n := range []int{0, 1, 15, 16, 17, 33} {
+			add(&Instance{Property: "C06", Name: "general-e" + itoa(et) + "-n" + itoa(n), Entry: "crypto.VH_C06_General", Params: p("etype", et, "n", cl(n)), Stubs: []string{"nfolduf", "des3rtkuf"}, Logic: "QF_UFBV",
+				Reach: []string{"accepted", "rejected"}, Bound: "EVERY byte string of the length of an RFC ciphertext of an n-byte plaintext; key and all non-zero usages symbolic"})
+			for mode := 0; mode <= 4; mode++ {
+				if et == 23 && mode == 2 {
+					continue // rc4: the tag also keys the cipher layer; "changed tag rejected" is a MAC-forgery statement, covered by the general form
+				}
+				add(&Instance{Property: "C06", Name: "tamper-e" + itoa(et) + "-n" + itoa(n) + "-m" + itoa(mode), Entry: "crypto.VH_C06_Tamper", Params: p("etype", et, "n", n, "mode", mode), Stubs: []string{"nfolduf", "des3rtkuf", "idealmac"}, Logic: "QF_UFBV",
+					Reach: []string{"checked"}, Bound: "genuine RFC ciphertext of an n-byte plaintext; mode 1: every non-zero xor mask over the cipher body, 2: over the tag, 3: every other key, 4: every other non-aliased usage (idealised MAC)"})
+			}
+		}
+		add(&Instance{Property: "C06", Name: "sequence-e" + itoa(et), Entry: "crypto.VH_C06_Sequence", Params: p("etype", et, "n", 5), Stubs: []string{"nfolduf", "des3rtkuf", "idealmac"}, Logic: "QF_UFBV",
+			Reach: []string{"done"}, Bound: "history: decrypt with key buffer B=K1, refill B in place with K2, decrypt old and new ciphertexts, encrypt; 5-byte plaintext (idealised MAC)"})
+		for _, n := range []int{2, 8, 31, 32, 48, 64} {
+			add(&Instance{Property: "C06", Name: "general-e" + itoa(et) + "-n" + itoa(n), Entry: "crypto.VH_C06_General", Params: p("etype", et, "n", cl(n)), Stubs: []string{"nfolduf", "des3rtkuf"}, Logic: "QF_UFBV", Tier: "thorough",
+				Reach: []string{"accepted", "rejected"}, Bound: "EVERY byte string of that length"})
+			for mode := 1; mode <= 4; mode++ {
+				if et == 23 && mode == 2 {
+					continue
+				}
+				add(&Instance{Property: "C06", Name: "tamper-e" + itoa(et) + "-n" + itoa(n) + "-m" + itoa(mode), Entry: "crypto.VH_C06_Tamper", Params: p("etype", et, "n", n, "mode", mode), Stubs: []string{"nfolduf", "des3rtkuf", "idealmac"}, Logic: "QF_UFBV", Tier: "thorough",
+					Reach: []string{"checked"}, Bound: "as quick tier, n-byte plaintext"})
+			}
+		}
+	}
+}
+
+func regC07(add addFn, p pFn) {
+	for _, et := range allEtypes {
+		for _, n := range []int{0, 1, 64, 65, 200} {
+			tier := "quick"
+			add(&Instance{Property: "C07", Name: "checksum-e" + itoa(et) + "-n" + itoa(n), Entry: "crypto.VH_C07_Checksum", Params: p("etype", et, "n", n), Stubs: []string{"nfolduf", "des3rtkuf"}, Logic: "QF_UFBV", Tier: tier,
+				Reach: []string{"done"}, Bound: "data of exactly n bytes; key, data, all 2^32 usages symbolic; candidate checksums of length L-1, L, L+1 fully symbolic"})
+		}
+		for _, n := range []int{5, 63, 128} {
+			add(&Instance{Property: "C07", Name: "checksum-e" + itoa(et) + "-n" + itoa(n), Entry: "crypto.VH_C07_Checksum", Params: p("etype", et, "n", n), Stubs: []string{"nfolduf", "des3rtkuf"}, Logic: "QF_UFBV", Tier: "thorough",
+				Reach: []string{"done"}, Bound: "data of exactly n bytes"})
+		}
+		for mode := 0; mode <= 2; mode++ {
+			add(&Instance{Property: "C07", Name: "verify-other-e" + itoa(et) + "-m" + itoa(mode), Entry: "crypto.VH_C07_VerifyOther", Params: p("etype", et, "n", 9, "mode", mode), Stubs: []string{"nfolduf", "des3rtkuf", "idealmac"}, Logic: "QF_UFBV",
+				Reach: []string{"checked"}, Bound: "9-byte data; mode 0: every other data of that length, 1: every other key, 2: every other non-aliased usage (idealised MAC)"})
+		}
+	}
+	for _, pr := range [][2]int{{17, 19}, {19, 17}, {18, 20}, {20, 18}, {16, 17}, {17, 18}, {23, 17}, {17, 23}, {17, 17}} {
+		add(&Instance{Property: "C07", Name: "sequence-e" + itoa(pr[0]) + "-e" + itoa(pr[1]), Entry: "crypto.VH_C07_Sequence", Params: p("e1", pr[0], "e2", pr[1], "n", 5), Stubs: []string{"nfolduf", "des3rtkuf"}, Logic: "QF_UFBV",
+			Reach: []string{"done"}, Bound: "two successive checksum computations with the same key bytes (where the key lengths agree), usage and 5-byte data under two etypes"})
+	}
+	add(&Instance{Property: "C07", Name: "registry", Entry: "crypto.VH_C07_Registry", Reach: []string{"known", "unknown"}, Bound: "all 2^32 checksum type ids and all 2^32 etype ids"})
 }
